@@ -21,6 +21,8 @@ MUTS = [
   "\tfor _, c := range cfg.Folder {\n\t\tif c == ' ' {\n\t\t\treturn errors.New(\"folder has a space\")\n\t\t}\n\t}\n\n\tif cfg.GCDiscardRatio <= 0 || cfg.GCDiscardRatio >= 1 {"),
  ("V9_crdt_trusted_peers_continue", "consensus/crdt/config.go", "\t\t\tcfg.TrustedPeers = []peer.ID{}\n\t\t\tbreak\n", "\t\t\tcfg.TrustedPeers = []peer.ID{}\n\t\t\tcontinue\n"),
  ("V10_crdt_trusted_peers_save_literal", "consensus/crdt/config.go", "jcfg.TrustedPeers = []string{\"*\"}", "jcfg.TrustedPeers = []string{\"all\"}"),
+ ("V12_cluster_low_water_ge", "cluster_config.go", "if cfg.ConnMgr.LowWater > cfg.ConnMgr.HighWater {", "if cfg.ConnMgr.LowWater >= cfg.ConnMgr.HighWater {"),
+ ("V13_ipfshttp_pin_timeout_le", "ipfsconn/ipfshttp/config.go", "if cfg.PinTimeout < 0 {", "if cfg.PinTimeout <= 0 {"),
  ("V11_metrics_check_moved_out_of_guard", "observations/config.go",
   "\tif cfg.EnableStats {\n\t\tif cfg.PrometheusEndpoint == nil {\n\t\t\treturn errors.New(\"metrics.prometheus_endpoint is undefined\")\n\t\t}\n\t\tif cfg.ReportingInterval < 0 {\n\t\t\treturn errors.New(\"metrics.reporting_interval is invalid\")\n\t\t}\n\t}\n",
   "\tif cfg.ReportingInterval < 0 {\n\t\treturn errors.New(\"metrics.reporting_interval is invalid\")\n\t}\n\tif cfg.EnableStats {\n\t\tif cfg.PrometheusEndpoint == nil {\n\t\t\treturn errors.New(\"metrics.prometheus_endpoint is undefined\")\n\t\t}\n\t}\n"),
